@@ -4,6 +4,7 @@ import (
 	"errors"
 	"fmt"
 	"net"
+	"strings"
 
 	"github.com/oschwald/geoip2-golang"
 )
@@ -93,7 +94,7 @@ func (mmdb *maxMindDatabase) ASN(ipAddress net.IP) (uint, error) {
 
 	record, err := mmdb.asnReader.ASN(ipAddress)
 	if err != nil {
-		return 0, err
+		return 0, lookupErr(err, ipAddress)
 	}
 
 	return record.AutonomousSystemNumber, nil
@@ -107,11 +108,22 @@ func (mmdb *maxMindDatabase) CC(ipAddress net.IP) (string, error) {
 
 	record, err := mmdb.ccReader.Country(ipAddress)
 	if err != nil {
-		return "", err
+		return "", lookupErr(err, ipAddress)
 	}
 	if record == nil {
 		return "unk", nil
 	}
 
 	return record.Country.IsoCode, nil
+}
+
+// lookupErr returns the reader's error without the address that was looked up. The MaxMind reader
+// formats that address into its error text ("error looking up '<ip>': ..."); callers log these
+// errors, and the address is a client's, which must not reach the logs unless client address
+// logging is enabled.
+func lookupErr(err error, ip net.IP) error {
+	if err == nil || ip == nil {
+		return err
+	}
+	return errors.New(strings.ReplaceAll(err.Error(), ip.String(), "_"))
 }
